@@ -28,7 +28,8 @@ func (node *tagWidthratioNode) Execute(ctx *ExecutionContext, writer TemplateWri
 		return err
 	}
 
-	value := int(math.Ceil(current.Float()/max.Float()*width.Float() + 0.5))
+	// round to the nearest integer (as Django does); Ceil(x + 0.5) was one too high for every x that is not an exact half
+	value := int(math.Round(current.Float() / max.Float() * width.Float()))
 
 	if node.ctxName == "" {
 		writer.WriteString(fmt.Sprintf("%d", value))
